@@ -253,7 +253,9 @@ func runSCIONServer(ctx context.Context, log *slog.Logger, mtrcs *scionServerMet
 				continue
 			}
 
-			dstAddrPort := netip.AddrPortFrom(dstAddr, udpLayer.DstPort)
+			// The destination may be given as IPv4-mapped IPv6 address; the underlay
+			// socket takes the IPv4 address.
+			dstAddrPort := netip.AddrPortFrom(dstAddr.Unmap(), udpLayer.DstPort)
 			payload := gopacket.Payload(udpLayer.Payload)
 
 			err = buffer.Clear()
